@@ -38,7 +38,7 @@ ASSUMPTIONS = [
     "whole-parse theorems (C05_parse_top_delivered, C05_parse_top_prefix_same and their do_parse/get_matches_with "
     "forms) are stated for the boolean class esc_class: plain (no short flag-subcommands, as for C01), valid, and at "
     "every level of the built tree no ignore_errors, no argument with allow_hyphen_values, no subcommand named/prefixed "
-    "`--`; no global arguments anywhere (globals_free of the built tree); parse_top with a bin name already set "
+    "`--`, no Help/Version-action argument with an env variable or default; no global arguments anywhere (globals_free of the built tree); parse_top with a bin name already set "
     "(otherwise argv[0] is stored in the definition before it is built; do_parse form has no such hypothesis)",
     "the verbatim-delivery conclusion is for two classes of levels: sink_from (after the `--` every token goes to ONE "
     "multi-valued positional without terminator -- for every value of the positional counter (a `last` positional or "
@@ -48,8 +48,7 @@ ASSUMPTIONS = [
     "with num_args(1), value terminators and levels whose positionals cannot absorb the whole tail are covered by "
     "C05_trailing_loop_is_absorb/C05_trailing_outcome, C05_escape_line_sim and the differential run only",
     "prefix preservation (C05_*_prefix_same): at the level that consumed the `--` for command-line entries outside "
-    "`touched` (= the positional, its groups, its overrides relation); at the levels above it for all entries; "
-    "help/version outcomes of the phases after the loop are differential only",
+    "`touched` (= the positional, its groups, its overrides relation); at the levels above it for all entries",
     "no multicall, no Command::defer, built-in value parsers only; OsStr = bytes (Unix)",
 ]
 TECHNIQUE = ("Coq proof (the parse loop with trailing_values set equals a classification-free loop `absorb`; one walk over "
@@ -72,9 +71,10 @@ LEVEL_TEXT = ("Machine-checked theorems (Coq 8.16, closed under the global conte
               "overflow into an external subcommand; an external subcommand selected "
               "by the prefix receives `--` and the tail verbatim.  Two successful parses of the same prefix with different "
               "tails (the empty one included) agree on every command-line entry of that level outside the positional's "
-              "overrides/groups relation and on all entries of the levels above it.  A help/version outcome of the token loop on `pre -- tail` is the outcome for "
-              "every other tail: no tail token causes it (the invariant that a Help/Version argument is never pending is "
-              "proved for all reachable states).  Underneath: once trailing_values is set the loop equals, for every "
+              "overrides/groups relation and on all entries of the levels above it.  A help/version outcome of parse_top on `bin pre.. -- tail..` is the "
+              "outcome (same error) for every other tail: no tail token causes it (the invariant that a Help/Version "
+              "argument is never pending is proved for all reachable states; the phases after the loop, the help "
+              "subcommand and the recursion into subcommands are covered).  Underneath: once trailing_values is set the loop equals, for every "
               "command, token list and state, a loop that only compares a token with a value terminator and pushes it.  "
               "The model is tied to clap_builder by running the extracted model and the real crate on the same generated "
               "cases on every check; an independent python oracle (values end with the tail, no tail token selects a "
@@ -82,7 +82,7 @@ LEVEL_TEXT = ("Machine-checked theorems (Coq 8.16, closed under the global conte
               "implementation's output.")
 LEVEL_NOTE = ("Trusted: Coq kernel, extraction, OCaml driver, Rust harness, generators. Differential/oracle only: commands "
               "outside esc_class / sink_from / chainc (hyphen-accepting arguments, Append num_args(1) positionals, "
-              "terminators, globals, ignore_errors), help/version outcomes of the phases after the loop."
+              "terminators, globals, ignore_errors)."
               "")
 
 SEP = " ;; "
